@@ -32,9 +32,8 @@ ASSUMPTIONS = [
 EXCLUDE = {
     "Ė": "string overload executes a program on the stack (side effects)",
     "•": "documented lst-lst overload (mold) consumes lists",
-    "Ḋ": None,  # placeholder removed below if fine
 }
-FORCE_NUM_ONLY = {"%": "the str-lst overload is a formatter, not a lifting", "E": "string overload evaluates text",
+FORCE_NUM_ONLY = {"Ḋ": "its string overloads push a variable number of copies onto the stack (documented), which is not a lifting", "%": "the str-lst overload is a formatter, not a lifting", "E": "string overload evaluates text",
                   "ƈ": "string overloads are random choices", "Ǎ": None, "∆q": "strings are parsed as polynomials (slow, sympy)",
                   "∆Q": "strings are parsed as polynomials (slow, sympy)", "e": "str-str overload is a regex search"}
 KEEP_ANY = {"≤", "≥"}
